@@ -137,7 +137,32 @@ def run_cell(cfg, cx):
                 else:
                     want = np.array([[q] for q in per_f])
                 return cx.deviates(got, want)
-            rp = replay if nm != "normalized" else None
+            def replay_norm(vals, bvals, run=run):
+                # the witness, and the same prediction against the target at smaller amplitudes (down to an identically zero
+                # target): a defect in how eps enters the denominator only shows where |target|^2 is comparable with eps
+                xb0 = {q: cx.conc(v, vals) for q, v in x.items()}
+                yb0 = {q: cx.conc(v, vals) for q, v in y.items()}
+                epsf = float(np.float32(1e-5))
+                res = (False, "")
+                for amp in (1.0, 1e-2, 1e-3, 1e-4, 0.0):
+                    xb = {q: jnp.asarray(v) for q, v in xb0.items()}
+                    yb = {q: jnp.asarray((v * amp).astype(np.float32)) for q, v in yb0.items()}
+                    try:
+                        got = np.asarray(run(xb, yb))
+                    except Exception as e:  # noqa: BLE001
+                        return True, f"raises {type(e).__name__}: {str(e)[:100]}"
+                    tot = 0.0
+                    for kp, c in ts:
+                        xs, ys = np.asarray(xb[kp], dtype=np.float64), np.asarray(yb[kp], dtype=np.float64)
+                        tax = tuple(range(2 + D, xs.ndim))
+                        n2 = np.sum(ys ** 2, axis=tax, keepdims=True) if tax else ys ** 2
+                        tot += float(np.sum((xs - ys) ** 2 / (n2 + epsf)))
+                    want = np.array(tot / npx / batch)
+                    res = cx.deviates(got, want)
+                    if res[0]:
+                        return True, f"{res[1]} (witness target scaled by {amp})"
+                return res
+            rp = replay if nm != "normalized" else replay_norm
             try:
                 got = I.sym_call(run, x, y)
             except I.Unsupported:
